@@ -24,7 +24,8 @@ RULE = ("random rule trees (depth<=3, <=4 children per rule, children drawn from
         "condition skeletons")
 ASSUMPTIONS = ["a refinement chain is the refinement followed by the alternatives written inside its block",
                "several refinements of one rule are tried in the order written",
-               "an alternative written inside an alternative's block continues the same chain",
+               "an alternative / next_rule written inside an alternative's or next_rule's block continues the enclosing "
+               "chain in writing order; a next_rule fires whatever fired before it in that chain",
                "instances are compared as sets of (branch tag, binding identities)"]
 ANCHORS = ["refinement", "alternative_or_next", "ExceptIf._evaluate__", "Alternative._evaluate__", "Next._evaluate__",
            "ConclusionSelector.update_conclusion", "QueryObjectDescriptor.evaluate_conclusions_and_update_bindings"]
@@ -119,8 +120,30 @@ def exhaustive(tier, ctx):
 
 
 # ------------------------------------------------------------------ reference interpreter
+def normalize(rule):
+    """alternative / next_rule branches written inside the block of an alternative / next_rule branch continue the
+    enclosing chain in writing order (they are not a private chain of that branch); refinements stay with the branch
+    whose block they are written in.  A refinement's block starts a chain of its own."""
+    out = {"id": rule["id"], "cond": rule["cond"], "children": []}
+
+    def hoist(kind, ch):
+        n = normalize(ch)
+        own = [(k, c) for k, c in n["children"] if k == "ref"]
+        rest = [(k, c) for k, c in n["children"] if k != "ref"]
+        n["children"] = own
+        return [(kind, n)] + rest          # `rest` is already flattened by the recursive normalize
+
+    for kind, ch in rule["children"]:
+        if kind == "ref":
+            out["children"].append(("ref", normalize(ch)))
+        else:
+            out["children"].extend(hoist(kind, ch))
+    return out
+
+
 def interpret(rule, holds):
     """-> (fired, set of branch ids) for one binding; holds(rule)->bool"""
+    rule = normalize(rule)
 
     def chain(r):
         if not holds(r):
@@ -193,6 +216,18 @@ def cond_skeleton(rule):
     return sk(rule["cond"]) + "[" + ",".join(cond_skeleton(ch) for _, ch in rule["children"]) + "]"
 
 
+def _alt_after_next(rule):
+    seen_next = False
+    for k, ch in rule["children"]:
+        if k == "next":
+            seen_next = True
+        if k == "alt" and seen_next:
+            return 1
+        if _alt_after_next(ch):
+            return 1
+    return 0
+
+
 def shape_of(rule):
     return "(" + ",".join(k + shape_of(ch) for k, ch in rule["children"]) + ")"
 
@@ -254,6 +289,7 @@ def run(spec, ctx):
     names = [v["name"] for v in spec["vars"]]
     feats = tree_features(spec["rule"])
     feats["nvars"] = len(names)
+    feats["alt_after_next_flat"] = _alt_after_next(normalize(spec["rule"]))
     for k in ("kind:ref", "kind:alt", "kind:next"):
         C[k] += feats[k]
     # expected
@@ -305,8 +341,8 @@ def run(spec, ctx):
 
 def classify(feats, direction):
     """listed findings (see known-findings.txt); direction = (extra, missing) or None for an exception"""
-    if feats["kind:next"] and (feats["alt_after_next"] or feats["alt_or_next_inside_alt_or_next_block"]):
-        return "next-mixed-with-alternative-or-nested-block"
+    if feats["alt_after_next_flat"]:
+        return "alternative-after-next-rule"
     if feats["nvars"] == 2 and direction == (False, True):
         return "conclusion-unbound-variable-first-only"
     return None
@@ -344,7 +380,7 @@ def witnesses():
     w["next-rule-same-variables-suppressed"] = {"world": world, "vars": X, "rule": {
         "id": "r0", "cond": base, "children": [
             ["next", {"id": "r1", "cond": ["cmp", "==", ["attr", ["var", "x"], "a"], ["lit", 1]], "children": []}]]}}
-    w["next-mixed-with-alternative-or-nested-block"] = {"world": world, "vars": X, "rule": {
+    w["alternative-after-next-rule"] = {"world": world, "vars": X, "rule": {
         "id": "r0", "cond": ["cmp", "==", ["attr", ["var", "x"], "a"], ["lit", 1]], "children": [
             ["next", {"id": "r1", "cond": ["cmp", "==", ["attr", ["var", "x"], "b"], ["lit", 5]], "children": []}],
             ["alt", {"id": "r2", "cond": base, "children": []}]]}}
